@@ -707,18 +707,18 @@ def swap_site(out_ops_list, primary_ops: List, swap_jw: bool, algo="Hopcroft-Kar
     new_out_ops1, new_out_ops2, new_out_ops3_unsorted = new_out_ops[:3]
 
     # sort the out operators
-    new_out_ops3 = [None] * len(new_out_ops3_unsorted)
-    assert len(new_out_ops3) == len(primary_ops) - n_primary_ops == len(auxiliary_dummy_primary_ops)
+    new_out_ops3 = [[] for _ in range(len(auxiliary_dummy_primary_ops))]
+    assert len(new_out_ops3) == len(primary_ops) - n_primary_ops
     assert len(new_out_ops[-1]) == 1
+    # with the graph algorithms every auxiliary label is linked to exactly one of the unsorted operators.
+    # With QR an auxiliary label is in general a linear combination of them
     for dummy_op in new_out_ops[-1][0]:
         idx1, idx2 = dummy_op.symbol
         idx2 -= n_primary_ops
-        new_out_ops3[idx2] = new_out_ops3_unsorted[idx1]
-        if dummy_op.factor != 1:
-            for i, op in enumerate(new_out_ops3[idx2]):
-                new_out_ops3[idx2][i] = OpTuple(symbol=op.symbol, qn=op.qn, factor=op.factor * dummy_op.factor)
+        for op in new_out_ops3_unsorted[idx1]:
+            new_out_ops3[idx2].append(OpTuple(symbol=op.symbol, qn=op.qn, factor=op.factor * dummy_op.factor))
         del dummy_op, idx1, idx2
-    assert None not in new_out_ops3
+    assert [] not in new_out_ops3
 
     if not swap_jw:
         # if swap_jw == True, it's bound to fail
